@@ -20,6 +20,7 @@ import (
 	"strings"
 
 	"golang.org/x/tools/go/packages"
+	"golang.org/x/tools/go/ssa"
 
 	"verif/checker/internal/core"
 )
@@ -135,7 +136,11 @@ func identifierHelpers(c *core.Ctx, p *packages.Package) []*ast.FuncDecl {
 
 var lowerWord = regexp.MustCompile(`^[a-z]+$`)
 
-// N2
+// N2 (decided on SSA, so that the shape of the helper — early return, if/else, single exit with
+// `id += "_"`, a predicate helper around the table lookup — does not matter):
+// let K be the value looked up in the reserved table and `reserved` the outcome. On every path on
+// which the outcome is "not reserved" the helper returns K itself; on every path on which it is
+// "reserved" it returns a different value computed from K.
 func ruleIdentifierHelpers(c *core.Ctx) {
 	const rule = "N2"
 	c.Rule(rule, "every <X>IdentifierName(name string) helper of a back end looks the identifier it is about to emit (after case conversion) up in the reserved-word table and returns it unchanged only when it is not reserved", 14)
@@ -148,86 +153,304 @@ func ruleIdentifierHelpers(c *core.Ctx) {
 		info := p.TypesInfo
 		for _, fd := range identifierHelpers(c, p) {
 			fn := c.FuncName(fd)
-			param := info.Defs[fd.Type.Params.List[0].Names[0]]
-			var keys []ast.Expr
-			ast.Inspect(fd.Body, func(n ast.Node) bool {
-				if ix, ok := n.(*ast.IndexExpr); ok {
-					if id, ok := ast.Unparen(ix.X).(*ast.Ident); ok && info.Uses[id] == t.obj {
-						keys = append(keys, ix.Index)
+			key := fn + "/reserved-check"
+			fobj, _ := info.Defs[fd.Name].(*types.Func)
+			sf := c.SSAFunc(fobj)
+			if sf == nil || len(sf.Blocks) == 0 {
+				c.Undecided(rule, key, fd.Pos(), "no SSA for the helper")
+				continue
+			}
+			lk := findReservedLookup(sf, t.obj, c)
+			if lk == nil {
+				c.Bad(rule, key, fd.Pos(), fmt.Sprintf("%s derives a target-language identifier from a model name without consulting %s: a name that converts to a keyword (e.g. namespace 'Class' -> 'class') is emitted verbatim", fd.Name.Name, t.obj.Name()))
+				continue
+			}
+			if lk.err != "" {
+				c.Undecided(rule, key, fd.Pos(), lk.err)
+				continue
+			}
+			// classify the returned values by the side of the test they come from
+			rsDom := map[*ssa.BasicBlock]bool{}
+			if len(lk.reservedSucc.Preds) == 1 {
+				for _, b := range sf.Blocks {
+					if lk.reservedSucc.Dominates(b) {
+						rsDom[b] = true
 					}
 				}
-				return true
-			})
-			if len(keys) == 0 {
-				c.Bad(rule, fn+"/reserved-check", fd.Pos(), fmt.Sprintf("%s derives a target-language identifier from a model name without consulting %s: a name that converts to a keyword (e.g. namespace 'Class' -> 'class') is emitted verbatim", fd.Name.Name, t.obj.Name()))
+			} else {
+				c.Undecided(rule, key, fd.Pos(), "the branch taken for a reserved identifier joins other paths immediately; shape not recognised")
 				continue
 			}
-			if len(keys) > 1 {
-				c.Undecided(rule, fn+"/reserved-check", fd.Pos(), "more than one lookup in the reserved table; shape not recognised")
-				continue
+			type occ struct {
+				v      ssa.Value
+				origin *ssa.BasicBlock
 			}
-			key := keys[0]
-			keyObj := types.Object(nil)
-			if id, ok := ast.Unparen(key).(*ast.Ident); ok {
-				keyObj = info.Uses[id]
-			}
-			// returns
-			var plain []ast.Expr // results returned in the not-reserved branch: a bare variable
-			var all []ast.Expr
-			ast.Inspect(fd.Body, func(n ast.Node) bool {
-				if _, ok := n.(*ast.FuncLit); ok {
-					return false
+			var occs []occ
+			var expand func(v ssa.Value, origin *ssa.BasicBlock, depth int)
+			expand = func(v ssa.Value, origin *ssa.BasicBlock, depth int) {
+				if phi, ok := v.(*ssa.Phi); ok && depth < 4 {
+					for i, e := range phi.Edges {
+						expand(e, phi.Block().Preds[i], depth+1)
+					}
+					return
 				}
-				if r, ok := n.(*ast.ReturnStmt); ok && len(r.Results) == 1 {
-					all = append(all, r.Results[0])
-					if _, ok := ast.Unparen(r.Results[0]).(*ast.Ident); ok {
-						plain = append(plain, r.Results[0])
+				occs = append(occs, occ{v, origin})
+			}
+			for _, b := range sf.Blocks {
+				for _, ins := range b.Instrs {
+					if r, ok := ins.(*ssa.Return); ok && len(r.Results) == 1 {
+						expand(r.Results[0], b, 0)
 					}
 				}
-				return true
-			})
-			if keyObj == nil || len(plain) != 1 || len(all) < 2 {
-				c.Undecided(rule, fn+"/reserved-check", fd.Pos(), "helper shape not recognised (expected: lookup of a variable, one unescaped return, one escaped return)")
-				continue
 			}
-			emitted := info.Uses[ast.Unparen(plain[0]).(*ast.Ident)]
-			// every other return must derive from the emitted spelling
-			derived := true
-			for _, r := range all {
-				if r == plain[0] {
-					continue
-				}
-				uses := false
-				ast.Inspect(r, func(n ast.Node) bool {
-					if id, ok := n.(*ast.Ident); ok && info.Uses[id] == emitted {
-						uses = true
+			nPlain, nEsc := 0, 0
+			bad := ""
+			for _, o := range occs {
+				if rsDom[o.origin] {
+					nEsc++
+					if sameValue(o.v, lk.key) {
+						bad = "a reserved identifier is returned unescaped"
+					} else if !dependsOn(o.v, lk.key, 0) {
+						bad = "the escaped spelling is not derived from the identifier that was looked up"
 					}
-					return true
-				})
-				derived = derived && uses
+				} else {
+					nPlain++
+					if !sameValue(o.v, lk.key) {
+						bad = fmt.Sprintf("the reserved table is consulted with `%s` but the identifier returned when it is not reserved is `%s`: a name whose converted form is reserved (e.g. notEq -> not_eq) is emitted unescaped", valueText(lk.key), valueText(o.v))
+					}
+				}
 			}
-			if !derived {
-				c.Bad(rule, fn+"/reserved-check", key.Pos(), "the escaped spelling is not derived from the unescaped one")
-				continue
+			if bad == "" && (nPlain == 0 || nEsc == 0) {
+				bad = "the helper does not return both an unescaped and an escaped spelling"
 			}
-			if emitted == keyObj {
-				c.OK(rule, fn+"/reserved-check", key.Pos(), fmt.Sprintf("looks up %s, returns %s when not reserved and an escaped form of it otherwise", keyObj.Name(), emitted.Name()))
+			if bad == "" {
+				c.OK(rule, key, fd.Pos(), fmt.Sprintf("looks up `%s`, returns it when not reserved and a value derived from it otherwise", valueText(lk.key)))
 				continue
 			}
 			// audited exception: lookup of the raw name where that is equivalent
-			if fn == "internal/matlab/common.ComputedFieldIdentifierName" && keyObj == param && singleDefIsCall(info, fd, emitted, "ToSnakeCase", param) {
+			if fn == "internal/matlab/common.ComputedFieldIdentifierName" {
+				param := sf.Params[0]
+				okShape := sameValue(lk.key, param)
+				for _, o := range occs {
+					if !rsDom[o.origin] {
+						call, isCall := o.v.(*ssa.Call)
+						okShape = okShape && isCall && call.Common().StaticCallee() != nil && call.Common().StaticCallee().Name() == "ToSnakeCase" && len(call.Common().Args) == 1 && sameValue(call.Common().Args[0], param)
+					}
+				}
 				allLower := true
 				for k := range t.keys {
 					allLower = allLower && lowerWord.MatchString(k)
 				}
-				if allLower {
-					c.OK(rule, fn+"/reserved-check", key.Pos(), "looks up the model spelling, emits ToSnakeCase(name): equivalent here because every MATLAB reserved word is [a-z]+ and member names match ^[a-z][a-zA-Z0-9]*$ — ToSnakeCase(name) is such a word only if name has no upper-case letter or digit, i.e. name == ToSnakeCase(name)")
+				if okShape && allLower {
+					c.OK(rule, key, fd.Pos(), "looks up the model spelling, emits ToSnakeCase(name): equivalent here because every MATLAB reserved word is [a-z]+ and member names match ^[a-z][a-zA-Z0-9]*$ — ToSnakeCase(name) is such a word only if name has no upper-case letter or digit, i.e. name == ToSnakeCase(name)")
 					continue
 				}
 			}
-			c.Bad(rule, fn+"/reserved-check", key.Pos(), fmt.Sprintf("the reserved table is consulted with %s but the identifier emitted is %s: a name whose converted form is reserved (e.g. notEq -> not_eq) is emitted unescaped", keyObj.Name(), emitted.Name()))
+			c.Bad(rule, key, fd.Pos(), bad)
 		}
 	}
+}
+
+type reservedLookup struct {
+	key          ssa.Value      // the value looked up
+	reservedSucc *ssa.BasicBlock // successor of the test taken when the identifier is reserved
+	err          string
+}
+
+// findReservedLookup locates, in fn, the test of the reserved table: a map lookup on the table
+// (comma-ok or bool-valued) or a call of a same-package predicate whose body is such a lookup on
+// its parameter, and the If that branches on it (possibly negated).
+func findReservedLookup(fn *ssa.Function, table *types.Var, c *core.Ctx) *reservedLookup {
+	isTable := func(v ssa.Value) bool {
+		if u, ok := v.(*ssa.UnOp); ok && u.Op == token.MUL {
+			if g, ok := u.X.(*ssa.Global); ok && g.Object() == table {
+				return true
+			}
+		}
+		return false
+	}
+	// outcome values: SSA values that are true iff reserved, with the key they test
+	type outcome struct {
+		v   ssa.Value
+		key ssa.Value
+	}
+	var outs []outcome
+	lookupOutcome := func(f *ssa.Function) (res ssa.Value, key ssa.Value) {
+		for _, b := range f.Blocks {
+			for _, ins := range b.Instrs {
+				lk, ok := ins.(*ssa.Lookup)
+				if !ok || !isTable(lk.X) {
+					continue
+				}
+				if lk.CommaOk {
+					for _, r := range *lk.Referrers() {
+						if ex, ok := r.(*ssa.Extract); ok && ex.Index == 1 {
+							return ex, lk.Index
+						}
+					}
+					return nil, lk.Index
+				}
+				if b, ok := lk.Type().Underlying().(*types.Basic); ok && b.Kind() == types.Bool {
+					return lk, lk.Index
+				}
+				return nil, lk.Index
+			}
+		}
+		return nil, nil
+	}
+	if v, k := lookupOutcome(fn); k != nil {
+		if v == nil {
+			return &reservedLookup{err: "the table lookup does not produce a reserved/not-reserved outcome"}
+		}
+		outs = append(outs, outcome{v, k})
+	}
+	// predicate helper
+	for _, b := range fn.Blocks {
+		for _, ins := range b.Instrs {
+			call, ok := ins.(*ssa.Call)
+			if !ok {
+				continue
+			}
+			callee := call.Common().StaticCallee()
+			if callee == nil || callee.Pkg != fn.Pkg || len(callee.Params) != 1 || len(call.Common().Args) != 1 {
+				continue
+			}
+			if bt, ok := call.Type().Underlying().(*types.Basic); !ok || bt.Kind() != types.Bool {
+				continue
+			}
+			v, k := lookupOutcome(callee)
+			if v == nil || k != ssa.Value(callee.Params[0]) {
+				continue
+			}
+			// the predicate must return exactly the outcome
+			okRet := true
+			for _, cb := range callee.Blocks {
+				for _, ci := range cb.Instrs {
+					if r, ok := ci.(*ssa.Return); ok && (len(r.Results) != 1 || r.Results[0] != v) {
+						okRet = false
+					}
+				}
+			}
+			if okRet {
+				outs = append(outs, outcome{call, call.Common().Args[0]})
+			}
+		}
+	}
+	if len(outs) == 0 {
+		return nil
+	}
+	if len(outs) > 1 {
+		return &reservedLookup{err: "more than one lookup in the reserved table; shape not recognised"}
+	}
+	o := outs[0]
+	for _, b := range fn.Blocks {
+		if len(b.Instrs) == 0 {
+			continue
+		}
+		ifi, ok := b.Instrs[len(b.Instrs)-1].(*ssa.If)
+		if !ok {
+			continue
+		}
+		cond := ifi.Cond
+		neg := false
+		for {
+			if u, ok := cond.(*ssa.UnOp); ok && u.Op == token.NOT {
+				neg = !neg
+				cond = u.X
+				continue
+			}
+			break
+		}
+		if cond != o.v {
+			continue
+		}
+		rs := b.Succs[0]
+		if neg {
+			rs = b.Succs[1]
+		}
+		return &reservedLookup{key: o.key, reservedSucc: rs}
+	}
+	return &reservedLookup{err: "the outcome of the table lookup is not branched on"}
+}
+
+// sameValue: identical SSA values, or calls of the same static callee on equal arguments
+// (go/ssa does not merge repeated pure calls).
+func sameValue(a, b ssa.Value) bool {
+	if a == b {
+		return true
+	}
+	ca, ok1 := a.(*ssa.Call)
+	cb, ok2 := b.(*ssa.Call)
+	if ok1 && ok2 && ca.Common().StaticCallee() != nil && ca.Common().StaticCallee() == cb.Common().StaticCallee() && len(ca.Common().Args) == len(cb.Common().Args) {
+		if p := ca.Common().StaticCallee().Pkg; p != nil && strings.HasSuffix(p.Pkg.Path(), "/internal/formatting") {
+			for i := range ca.Common().Args {
+				if !sameValue(ca.Common().Args[i], cb.Common().Args[i]) {
+					return false
+				}
+			}
+			return true
+		}
+	}
+	return false
+}
+
+func dependsOn(v, on ssa.Value, depth int) bool {
+	if sameValue(v, on) {
+		return true
+	}
+	if depth > 6 {
+		return false
+	}
+	ins, ok := v.(ssa.Instruction)
+	if !ok {
+		return false
+	}
+	for _, op := range ins.Operands(nil) {
+		if *op != nil && dependsOn(*op, on, depth+1) {
+			return true
+		}
+	}
+	// variadic Sprintf arguments travel through a slice: follow stores into the allocated array
+	if sl, ok := v.(*ssa.Slice); ok {
+		if al, ok := sl.X.(*ssa.Alloc); ok {
+			for _, r := range *al.Referrers() {
+				if ia, ok := r.(*ssa.IndexAddr); ok {
+					for _, rr := range *ia.Referrers() {
+						if st, ok := rr.(*ssa.Store); ok && dependsOn(st.Val, on, depth+1) {
+							return true
+						}
+					}
+				}
+			}
+		}
+	}
+	if mi, ok := v.(*ssa.MakeInterface); ok {
+		return dependsOn(mi.X, on, depth+1)
+	}
+	return false
+}
+
+func valueText(v ssa.Value) string {
+	if v == nil {
+		return "?"
+	}
+	if p, ok := v.(*ssa.Parameter); ok {
+		return p.Name()
+	}
+	if c, ok := v.(*ssa.Call); ok && c.Common().StaticCallee() != nil {
+		var args []string
+		for _, a := range c.Common().Args {
+			args = append(args, valueText(a))
+		}
+		return c.Common().StaticCallee().Name() + "(" + strings.Join(args, ", ") + ")"
+	}
+	if b, ok := v.(*ssa.BinOp); ok {
+		return valueText(b.X) + " " + b.Op.String() + " " + valueText(b.Y)
+	}
+	if k, ok := v.(*ssa.Const); ok {
+		return k.Value.String()
+	}
+	return v.Name()
 }
 
 // singleDefIsCall: variable v is defined exactly once in fd, as <pkg>.<fn>(arg).
